@@ -452,3 +452,32 @@ def c38(ctx):
         ctx.violation("random:panic", "%d parser panics on random strings, first: %s" % (tail["panics"], tail["first"]), tail)
     ctx.sample({"case": cases[5], "observed": obs[5]})
     ctx.exhaustive = True
+
+
+def c34(ctx):
+    ctx.assumptions = ["handlers are asked through HandleDirective with a fake directive instance; the bus is nil (no resolver is executed)"]
+    ctx.rule = ("cases = handler kind (echo, forwarding, relay, api/accept, srpc server, pubsub, solicitation) x every configuration accepted by its Validate over "
+                "2 protocol ids / 2 peers (+ empty) / remote lists x every stream (protocol incl. foreign ones, local peer, remote peer); non-trivial = cases where exactly one filter decides")
+    drift = []
+
+    def judge(c, o):
+        if o.get("panic"):
+            return ("panic:" + c["kind"], o["panic"])
+        if not o["built"]:
+            return None
+        if o["offers"] and not c["may"]:
+            cfg, s = c["cfg"], c["s"]
+            why = "protocol" if (s["proto"] not in ([cfg["proto"] or "bifrost/echo"] + cfg["protos"])) else ("local-peer" if cfg["local"] and cfg["local"] != s["local"] else "peer-list")
+            return ("%s:offers-foreign-%s" % (c["kind"], why), "%s handler configured %s offers to handle stream %s" % (c["kind"], cfg, s))
+        if c["may"] and not o["offers"]:
+            drift.append(c["kind"])
+        return None
+
+    def nontriv(c, o):
+        cfg, s = c["cfg"], c["s"]
+        return bool(cfg["local"] or cfg["remotes"]) or s["proto"] != (cfg["proto"] or "bifrost/echo")
+
+    run_table(ctx, "Filters", "filters", judge, nontrivial=nontriv)
+    if drift:
+        ctx.notes.append("SPEC-DRIFT (advisory): handlers refusing streams the spec allows them to take: %s" % sorted(set(drift)))
+        vlib.log("SPEC-DRIFT property=C34: some handlers are stricter than the spec (advisory): %s" % sorted(set(drift)))
